@@ -466,29 +466,78 @@ type c20NamesCase struct {
 	Name string `json:"name"` // exported name to examine ("" = only the five documented names)
 }
 
+// fingerprints: one canonical call per documented function with an answer that no other of the five functions gives
+// (RFC 4226 / 6238 vectors for the ASCII secret 12345678901234567890).
+var c20Finger = map[string]struct {
+	args []any
+	want func(jsResult) bool
+	desc string
+}{
+	"generateHOTP": {[]any{"GEZDGNBVGY3TQOJQGEZDGNBVGY3TQOJQ", 1, "6", "SHA1"}, func(r jsResult) bool { return r.Type == "string" && r.Value == "287082" }, `"287082" (RFC 4226, counter 1)`},
+	"generateTOTP": {[]any{"GEZDGNBVGY3TQOJQGEZDGNBVGY3TQOJQ", 59, "8", "SHA1", 30}, func(r jsResult) bool { return r.Type == "string" && r.Value == "94287082" }, `"94287082" (RFC 6238, t=59)`},
+	"validateHOTP": {[]any{"GEZDGNBVGY3TQOJQGEZDGNBVGY3TQOJQ", "287082", 1, "6", "SHA1", 0}, func(r jsResult) bool { return r.Type == "boolean" && r.Value == true }, "true (code of counter 1 at counter 1)"},
+	"validateTOTP": {[]any{"GEZDGNBVGY3TQOJQGEZDGNBVGY3TQOJQ", "94287082", 59, "8", "SHA1", 0, 30}, func(r jsResult) bool { return r.Type == "boolean" && r.Value == true }, "true (code of t=59 at t=59)"},
+	"generateOTPURL": {[]any{"totp", "Iss", "acc", "GEZDGNBVGY3TQOJQGEZDGNBVGY3TQOJQ", "6", "SHA1"}, func(r jsResult) bool {
+		v, _ := r.Value.(string)
+		return r.Type == "string" && strings.HasPrefix(v, "otpauth://totp/Iss:acc?")
+	}, "an otpauth://totp/Iss:acc?... URL"},
+}
+
+var c20FingerOrder = []string{"generateHOTP", "generateTOTP", "validateHOTP", "validateTOTP", "generateOTPURL"}
+
 var c20Names = newPart("C20", "export-table",
-	"complete: every key of the object resolved by otp-js/src/index.js must be a function and be the very function registered on globalThis under the same name; generateHOTP, generateTOTP, validateHOTP, validateTOTP, generateOTPURL must all be exported; each name is a distinct case",
+	"complete: the five documented names (generateHOTP, generateTOTP, validateHOTP, validateTOTP, generateOTPURL) must be exported by otp-js/src/index.js as functions, and each must answer its own canonical call (an RFC vector) with the answer only that function gives — a crossed or missing table entry fails; every other exported key that has a function of the same name on globalThis must give the same answers as that global on the five canonical argument lists. The export need not be the same function object as the global (a forwarding wrapper is fine); each name is a distinct case",
 	func(c c20NamesCase) verdict {
 		names, err := jsNode().names()
 		if err != nil {
 			fmt.Println("INFRA: names:", err)
 			os.Exit(3)
 		}
-		for _, want := range []string{"generateHOTP", "generateTOTP", "validateHOTP", "validateTOTP", "generateOTPURL"} {
-			if _, okk := names[want]; !okk {
-				return bad(true, nil, "the package does not export %s", want)
+		for _, want := range c20FingerOrder {
+			if v, okk := names[want]; !okk || v["type"] != "function" {
+				return bad(true, nil, "the package does not export %s as a function (%v)", want, v)
 			}
 		}
-		if c.Name != "" {
-			v, okk := names[c.Name]
-			if !okk {
-				return ok(false, "name-not-exported")
-			}
-			if v["type"] != "function" || v["sameAsGlobal"] != true {
-				return bad(true, nil, "package export %s is a %v and identical to globalThis.%s: %v (global is a %v)", c.Name, v["type"], c.Name, v["sameAsGlobal"], v["globalType"])
-			}
+		if c.Name == "" {
+			return ok(true, "names")
 		}
-		return ok(true, "names")
+		v, okk := names[c.Name]
+		if !okk {
+			return ok(false, "name-not-exported")
+		}
+		if fp, documented := c20Finger[c.Name]; documented {
+			res, err := jsNode().call([]jsWireCall{{Via: "pkg", Fn: c.Name, Args: fp.args}, {Via: "global", Fn: c.Name, Args: fp.args}})
+			if err != nil {
+				fmt.Println("INFRA: node:", err)
+				os.Exit(3)
+			}
+			if !fp.want(res[0]) {
+				return bad(true, nil, "package export %s%v returned %v; want %s", c.Name, fp.args, res[0], fp.desc)
+			}
+			if !fp.want(res[1]) {
+				return bad(true, nil, "globalThis.%s%v returned %v; want %s", c.Name, fp.args, res[1], fp.desc)
+			}
+			return ok(true, "documented-name")
+		}
+		if v["type"] == "function" && v["globalType"] == "function" {
+			// an extra export that shadows a function the wasm module registered: same answers as the global
+			var calls []jsWireCall
+			for _, n := range c20FingerOrder {
+				calls = append(calls, jsWireCall{Via: "pkg", Fn: c.Name, Args: c20Finger[n].args}, jsWireCall{Via: "global", Fn: c.Name, Args: c20Finger[n].args})
+			}
+			res, err := jsNode().call(calls)
+			if err != nil {
+				fmt.Println("INFRA: node:", err)
+				os.Exit(3)
+			}
+			for k := 0; k+1 < len(res); k += 2 {
+				if res[k].String() != res[k+1].String() {
+					return bad(true, nil, "package export %s%v returned %v but globalThis.%s returns %v", c.Name, calls[k].Args, res[k], c.Name, res[k+1])
+				}
+			}
+			return ok(true, "extra-name-with-global-twin")
+		}
+		return ok(false, "extra-name")
 	})
 
 func TestC20_ExportTable(t *testing.T) {
